@@ -27,30 +27,25 @@ def cases_from(res):
     return out
 
 
-def judge(c, events, chunk=30000):
+def judge(c, events, chunk=60000):
     """Run RbacTrace over the events; returns list of (event, expected-json) for lines TLC marked BAD."""
     bad = []
     for off in range(0, len(events), chunk):
         part = events[off:off + chunk]
-        lines = [json.dumps({"ev": "Reset"})] + part
-        r = c.tlc("RbacTrace", "RbacTrace.cfg", workers=1, timeout=1200, heap="6g",
-                  files={"trace.ndjson": "\n".join(lines) + "\n"}, tag="trace")
+        r = c.tlc("RbacTrace", "RbacTrace.cfg", workers=4, timeout=1200, heap="6g",
+                  files={"trace.ndjson": "\n".join(part) + "\n"}, tag="trace")
         if r.timed_out:
             raise vlib.InfraError("RbacTrace timed out")
-        hwm = None
         for pr in r.prints:
-            m = re.search(r'"HWM",\s*(\d+)', pr)
-            if m:
-                hwm = int(m.group(1))
             m = re.match(r'<<"BAD", (\d+), (".*")>>$', pr)
             if m:
-                bad.append((json.loads(part[int(m.group(1)) - 2]), json.loads(vlib.tla_unquote(m.group(2)))))
-        if hwm != len(lines) or not r.ok:
-            raise vlib.InfraError("RbacTrace did not consume the whole trace (hwm=%s of %d, violated=%s):\n%s" %
-                                  (hwm, len(lines), r.violated, r.out[-4000:]))
+                bad.append((json.loads(part[int(m.group(1)) - 1]), json.loads(vlib.tla_unquote(m.group(2)))))
+        if r.distinct != 2 * len(part) or not r.ok:
+            raise vlib.InfraError("RbacTrace did not judge every line (%d states for %d lines, violated=%s):\n%s" %
+                                  (r.distinct, len(part), r.violated, r.out[-4000:]))
         c.cov["states"] += r.distinct
         c.cov["transitions"] += r.generated
-        c.cov["traces_validated_against_impl"] += 1
+        c.cov["traces_validated_against_impl"] += len(part)
     return bad
 
 
